@@ -72,8 +72,8 @@ LANG = {'sim': {'L1': 'de_DE', 'L2': 'it_IT'}, 'real': {'L1': 'C', 'L2': 'de_DE'
 PLAIN_NAME = {'sim': {'L1': 'de_DE.UTF-8', 'L2': 'it_IT.UTF-8'}, 'real': {'L1': 'C.utf8', 'L2': 'de_DE.UTF-8'}}
 # CollTable of spec/CollationLock.tla (loc, fb): used only to render expected hook values
 LOC = {'cp': None, 'L1': 'L1', 'L2': 'L2', 'U1': 'L1', 'U2': 'L2', 'UFB': 'FB'}
-DEVIATIONS = ('LeakRaise', 'YieldHolding', 'LeaveHolding')
-SILENT = ('CallArg', 'EvalArgs', 'LeaveHolding', 'ResumeLazy', 'Enter0')
+DEVIATIONS = ('LeakRaise', 'YieldHolding', 'LeaveHolding', 'ReenterHolding')
+SILENT = ('CallArg', 'EvalArgs', 'LeaveHolding', 'ResumeLazy', 'Enter0', 'Recurse', 'ReenterHolding')
 
 
 def coll_uris(c: str, mode: str) -> list[str]:
@@ -109,6 +109,9 @@ STRING_SITES = ["substring-before('abc','b',{C})", "substring-after('cba','b',{C
 ERROR_SITES = ["contains-token((1),'a',{C})", "deep-equal((abs#1),(1),{C})", "max(('a',1),{C})"]
 GEN_SITES = ['distinct-values', 'index-of']
 LAZY_SITES = ["deep-equal({E}, 0, {C})", "contains-token({S}, 'a', {C})"]
+# re-entrant call sites: the members of maps and arrays are compared by the site itself
+REC_SITES = ["deep-equal(['a'], ['a'], {C})", "deep-equal(map{'k':'a'}, map{'k':'a'}, {C})",
+             "deep-equal([['a','b']], [['a','b']], {C})", "deep-equal([map{'k':['a']}], [map{'k':['a']}], {C})"]
 
 
 def q(s: str) -> str:
@@ -437,7 +440,7 @@ def run_idx(frs) -> int:
 
 
 def is_child(frs, idx) -> bool:
-    return idx > 0 and frs[idx - 1]['k'] == 'lazy' and frs[idx - 1]['kid'] == 'run'
+    return idx > 0 and frs[idx - 1]['k'] in ('lazy', 'rec') and frs[idx - 1]['kid'] == 'run'
 
 
 def acting_frame(S, act, args):
@@ -541,6 +544,8 @@ def render_frames(finfo: dict, mode: str, variety: int) -> None:
                 item = "concat('a', string($i))" if site == 'distinct-values' else "'a'"
                 seq = f'for $i in 1 to {n + 1} return if ($i = {n + 1}) then error() else {item}'   # '(E)' is eager
             fi['expr'] = f'distinct-values({seq}, {C})' if site == 'distinct-values' else f"index-of({seq}, 'a', {C})"
+        elif fi['k'] == 'rec':
+            fi['expr'] = REC_SITES[(variety + fid) % len(REC_SITES)].replace('{C}', C)
         else:  # lazy
             kid = finfo.get(fi.get('kid'))
             tpl = LAZY_SITES[(variety + fid) % len(LAZY_SITES)]
@@ -555,8 +560,8 @@ def render_frames(finfo: dict, mode: str, variety: int) -> None:
                 fi['expr'] = LAZY_SITES[0].replace('{E}', plain(kid, kfid, vars_)).replace('{C}', C)
         fi['vars'] = vars_
         fi['uri'] = vars_[f'c{fid}']
-        if fi['k'] == 'lazy' and finfo.get(fi.get('kid')) is not None:
-            finfo[fi['kid']]['uri'] = vars_.get(f'c{fi["kid"]}')
+        if fi['k'] in ('lazy', 'rec') and finfo.get(fi.get('kid')) is not None:
+            finfo[fi['kid']]['uri'] = vars_.get(f'c{fi["kid"]}') if fi['k'] == 'lazy' else fi['uri']
 
 
 def build_plan(states, path, mode: str, variety: int) -> dict:
@@ -578,11 +583,12 @@ def build_plan(states, path, mode: str, variety: int) -> dict:
             mir[t].append(nfid)
             finfo[nfid] = {'t': t, 'c': args[1], 'k': args[2], 'child': False, 'acts': [], 'yields': 0}
             step['cmd'] = ['call', nfid]
-        elif act == 'CallArg':
+        elif act in ('CallArg', 'ReenterHolding'):
             nfid += 1
             finfo[mir[t][-1]]['kid'] = nfid
             mir[t].append(nfid)
-            finfo[nfid] = {'t': t, 'c': args[1], 'k': 'plain', 'child': True, 'acts': [], 'yields': 0}
+            finfo[nfid] = {'t': t, 'c': args[1] if act == 'CallArg' else finfo[mir[t][-2]]['c'], 'k': 'plain',
+                           'child': True, 'acts': [], 'yields': 0}
         else:
             idx, f = acting_frame(S, act, args)
             fid = mir[t][idx]
@@ -929,7 +935,7 @@ def _explain(g: G, other: G, src: int, t: int, matched: list, observed: tuple) -
         sid = other.proj(t).get((st['inst'], st['lc0'], st['lc'], st['owner'], frs))
     if sid is None:
         return 'unmodelled'
-    seen = {sid}
+    seen = {sid: None}
     dq = collections.deque([sid])
     while dq:
         s = dq.popleft()
@@ -938,15 +944,16 @@ def _explain(g: G, other: G, src: int, t: int, matched: list, observed: tuple) -
             if args[0] != t:
                 continue
             posts = expected_posts(other.states[s], act, args)
+            via = seen[s] or (act if act in DEVIATIONS else None)
             if not posts:                 # nothing observable: look further
                 if d not in seen:
-                    seen.add(d)
+                    seen[d] = via
                     dq.append(d)
                 continue
             k = len(matched)
             if len(posts) > k and all(post_matches(p, m) for p, m in zip(posts[:k], matched)) \
                     and post_matches(posts[k], observed):
-                return act
+                return via or act          # the named deviation on the way, else the action itself
     return 'unmodelled'
 
 
@@ -1241,6 +1248,159 @@ def eval_cases(tier: str, seed: int) -> list[dict]:
     return cases
 
 
+# -- call-site sweep -------------------------------------------------------------------------------
+# A call site of spec/CollationLock.tla is (function, which operands are consumed inside the critical
+# section, whether the site calls itself for nested values): frame kinds plain / gen / lazy / rec.  Which
+# kind a concrete (function, argument shape) pair is, is the implementation's business; the sweep therefore
+# takes EVERY function of the live parser that has a collation parameter and gives it every shape.
+
+F_AND_O_COLLATION_FUNCTIONS = ['fn:compare', 'fn:contains', 'fn:starts-with', 'fn:ends-with', 'fn:substring-before',
+                               'fn:substring-after', 'fn:index-of', 'fn:distinct-values', 'fn:deep-equal', 'fn:min',
+                               'fn:max', 'fn:sort', 'fn:contains-token', 'fn:collation-key', 'array:sort']
+PROBE_URI = 'x-c19-probe-collation'
+SHAPES = {   # name -> (text, frame kind of the property variant it exercises)
+    'plain': ("'abc'", 'plain'),
+    'seq': ("('b','a','abc')", 'plain'),
+    'arr1': ("['b','a']", 'rec'),
+    'arr2': ("[['b'],['a','c']]", 'rec'),
+    'map1': ("map{'k':'a'}", 'rec'),
+    'map2': ("map{'k':map{'j':'a'}}", 'rec'),
+    'arrmap': ("[map{'k':['a','b']}]", 'rec'),
+    'call': ("substring-before('abc','c',{C})", 'lazy'),
+    'callseq': ("distinct-values(('b','a','b'),{C})", 'lazy'),
+    'lazy': ("for $i in 1 to 3 return concat('a', string($i))", 'gen'),
+    'nodes': ("/r/a/string()", 'gen'),
+}
+
+
+def _split_signature(sig: str) -> list[str]:
+    """'function(xs:string?, function(item()) as item()*) as item()*' -> parameter types."""
+    if not sig.startswith('function('):
+        return []
+    depth, start, out = 0, len('function('), []
+    for i in range(len('function(') - 1, len(sig)):
+        ch = sig[i]
+        if ch == '(':
+            depth += 1
+        elif ch == ')':
+            depth -= 1
+            if depth == 0:
+                if sig[start:i].strip():
+                    out.append(sig[start:i].strip())
+                break
+        elif ch == ',' and depth == 1:
+            out.append(sig[start:i].strip())
+            start = i + 1
+    return out
+
+
+def _synth(ty: str) -> str:
+    if ty.startswith('function('):
+        return 'function($v){$v}'
+    if ty.startswith('array('):
+        return "['b','a']"
+    if ty.startswith('map('):
+        return "map{'k':'a'}"
+    if ty.startswith('xs:string'):
+        return "'abc'"
+    if ty.startswith(('xs:anyAtomicType', 'item()')):
+        return "('b','a')" if ty[-1] in '*+' else "'a'"
+    if ty.startswith(('xs:integer', 'xs:double', 'xs:decimal', 'xs:numeric', 'numeric', 'xs:float')):
+        return '1'
+    if ty.startswith('xs:boolean'):
+        return 'true()'
+    if ty.startswith(('node()', 'element(', 'document-node(')):
+        return '/r'
+    return "'a'"
+
+
+def discover_call_sites() -> tuple[list[dict], list[str]]:
+    """Every (function, arity, position) of the live XPath 3.1 parser whose xs:string parameter reaches
+    CollationManager: found by calling the function with a probe URI in that position."""
+    import elementpath
+    import elementpath.collations as C
+    from elementpath.xpath31 import XPath31Parser
+    seen: list = []
+    orig = C.CollationManager.__init__
+
+    def spy(self, collation, token=None):
+        seen.append(collation)
+        return orig(self, collation, token)
+
+    w = World('sim', installed=())
+    w.register(1)
+    install(w)
+    C.CollationManager.__init__ = spy
+    old = signal.signal(signal.SIGALRM, _on_alarm)
+    sites = []
+    try:
+        parser = XPath31Parser()
+        for (qn, arity), sig in sorted(parser.function_signatures.items(), key=lambda kv: (str(kv[0][0]), kv[0][1])):
+            name = getattr(qn, 'qname', None) or str(qn)
+            params = _split_signature(sig)
+            if len(params) != arity:
+                continue
+            for pos, ty in enumerate(params):
+                if ty.rstrip('?') != 'xs:string':
+                    continue
+                args = [_synth(t) for t in params]
+                args[pos] = q(PROBE_URI)
+                del seen[:]
+                signal.alarm(10)
+                try:
+                    elementpath.select(root(), f'{name}({", ".join(args)})', parser=XPath31Parser)
+                except BaseException:
+                    pass
+                finally:
+                    signal.alarm(0)
+                w.aborted.clear()
+                if w.lock.locked():
+                    w.lock.owner = 0
+                    w.lock._l.release()
+                if PROBE_URI in seen:
+                    sites.append({'fn': name, 'arity': arity, 'pos': pos, 'params': params})
+    finally:
+        signal.signal(signal.SIGALRM, old)
+        C.CollationManager.__init__ = orig
+        uninstall()
+    missing = sorted(set(F_AND_O_COLLATION_FUNCTIONS) - {x['fn'] for x in sites})
+    return sites, missing
+
+
+def sweep_cases(sites: list[dict], tier: str) -> list[dict]:
+    colls = [('real', ['L1'], 'cp', CODEPOINT), ('real', ['L1'], 'L1', 'C.utf8'),
+             ('real', ['L1'], 'L2', 'de_DE.UTF-8'),                       # unsupported, no fallback
+             ('real', ['L1'], 'U2', f'{UCA}?lang=de_DE'),                  # unsupported, fallback missing too
+             ('sim', ['L1', 'FB'], 'U2', f'{UCA}?lang=it_IT')]            # unsupported, the fallback works
+    if tier == 'thorough':
+        colls += [('sim', ['L1', 'L2', 'FB'], 'L2', 'it_IT.UTF-8'), ('sim', [], 'UFB', UCA),
+                  ('real', ['L1'], 'U1', f'{UCA}?lang=C')]
+    cases = []
+    k = 0
+    for site in sites:
+        for shape, (text, kind) in SHAPES.items():
+            for (mode, inst, cls, uri) in colls:
+                if tier == 'quick' and mode == 'sim' and kind not in ('rec', 'lazy'):
+                    continue
+                k += 1
+                args = []
+                for i, ty in enumerate(site['params']):
+                    if i == site['pos']:
+                        args.append('$c')
+                    elif i == 0 or (not ty.startswith('function(') and (ty[-1] in '*+' or ty.startswith('item()'))):
+                        args.append(text.replace('{C}', '$c'))
+                    else:
+                        args.append(_synth(ty))
+                expr = f'{site["fn"]}({", ".join(args)})'
+                vars_ = {'c': uri}
+                if k % 3 == 0:          # literal collation: the parser evaluates what is constant
+                    expr, vars_ = expr.replace('$c', q(uri)), None
+                cases.append({'mode': mode, 'inst': inst, 'lc0': 'C', 'tpl': f'{site["fn"]}#{site["arity"]}', 'A': cls,
+                              'B': None, 'expr': expr, 'vars': vars_,
+                              'sweep': {'fn': site['fn'], 'arity': site['arity'], 'shape': shape, 'kind': kind, 'coll': cls}})
+    return cases
+
+
 def eval_chunk(job):
     """Runs a chunk of evaluation cases; returns (records, log)."""
     cases, tr0 = job
@@ -1418,7 +1578,12 @@ def validate_traces(chk: core.Check, log: list, name: str, threads: int = 3, par
 # ----------------------------------------------------------------------------------------------
 # Globals: os.environ, decimal context, allow_environment gate, entity-declaring DOCTYPE
 
-NAME_BIND = {'N1': 'VERIF_C19_A', 'N2': 'PATH', 'N3': 'verif c19 \u00fc'}
+NAME_BIND = {'N1': 'LC_ALL', 'N2': 'PATH', 'N3': 'verif c19 \u00fc'}
+ENV_VALUE = {'LC_ALL': 'C.UTF-8'}       # an installed locale: what it takes for a locale variable to show
+
+
+def env_value(n: str) -> str:
+    return ENV_VALUE.get(n, 'value-of-' + n)
 ENT_TEXT = {
     'none': '<r>t</r>',
     'internal': '<!DOCTYPE r [<!ENTITY e "x">]><r>&e;</r>',
@@ -1437,6 +1602,10 @@ DEC_OPS = {
     'format': "format-number(1234.5, '#,##0.00')", 'cast': 'xs:decimal(1e0 div 3)', 'round2': 'round(2.567, 2)',
     'big': "xs:decimal('12345678901234567890.123456789') * xs:decimal('98765432109876543210.987654321')",
     'sci': "xs:decimal('0.000000000000000000001') div 7",
+    # more significant digits than the precision of the default decimal context
+    'format_big': "format-number(12345678901234567890123456789.75, '#,##0.0')",
+    'format_big_double': "format-number(1e30, '#')",
+    'format_big_neg': "format-number(-98765432109876543210987654321.5, '0.00')",
 }
 
 
@@ -1448,7 +1617,7 @@ def project_globals(act, raw):
         if v == []:
             return ('empty',)
         for a, n in NAME_BIND.items():
-            if v == 'value-of-' + n:
+            if v == env_value(n):
                 return ('value', a)
         return ('value', '?')
     if act == 'AvailVars':
@@ -1456,6 +1625,8 @@ def project_globals(act, raw):
         return ('names', frozenset(a if (a := {n: k for k, n in NAME_BIND.items()}.get(x)) else '?' for x in vs))
     if act == 'ParseXml':
         return ('doc',)
+    if act == 'DefaultCollation':
+        return ('codepoint',) if v == CODEPOINT else ('other', str(v))
     return ('any',)
 
 
@@ -1484,7 +1655,7 @@ def globals_worker(job):
                 stats['transitions'] += 1
         for n in want:
             if n not in os.environ:
-                os.environ[n] = 'value-of-' + n
+                os.environ[n] = env_value(n)
                 stats['transitions'] += 1
         for (dst, act, args) in out_edges.get(sid, ()):
             if act in ('SetVar', 'UnsetVar'):
@@ -1496,10 +1667,12 @@ def globals_worker(job):
                 expr, kw, var = 'available-environment-variables()', {'allow_environment': True} if args[0] else {}, {}
             elif act == 'ParseXml':
                 expr, kw, var = f'{args[0]}($x)', {}, {'x': PREFIX[args[2]] + ENT_TEXT[args[1]]}
+            elif act == 'DefaultCollation':
+                expr, kw, var = 'default-collation()', {}, {}
             else:
                 expr, kw, var = DEC_OPS[args[0]], {}, {}
             stats['transitions'] += 1
-            if (act == 'ParseXml' and states[dst]['last']['ek'] != 'none') or (act in ('EnvVar', 'AvailVars') and st['env']):
+            if (act == 'ParseXml' and states[dst]['last']['ek'] != 'none') or (act in ('EnvVar', 'AvailVars', 'DefaultCollation') and st['env']):
                 stats['nontrivial'] += 1       # an entity-declaring text / a non-empty environment
             for lib, rt in roots.items():
                 for ver, pc in parsers.items():
@@ -1521,6 +1694,9 @@ def globals_worker(job):
                         bad = 'result'
                     if mon:
                         bad = 'globals:' + '+'.join(mon)
+                        if 'decimal_context' in mon:       # keep the following cases independent
+                            decimal.getcontext().prec = before['dec'][0]
+                            decimal.getcontext().rounding = before['dec'][1]
                     if bad:
                         feat = {'part': 'globals', 'action': act, 'what': bad,
                                 'arg': args[1] if act == 'ParseXml' else (str(args[-1]) if args else ''),
@@ -1686,7 +1862,7 @@ def monitor_paths(chk: core.Check) -> dict:
 # the check
 
 ALL_CONFIGS = [[], ['L1'], ['L1', 'FB'], ['L1', 'L2', 'FB']]
-ALL_KINDS = {'plain', 'gen', 'lazy'}
+ALL_KINDS = {'plain', 'gen', 'lazy', 'rec'}
 
 
 def _consts(threads, colls, kinds, maxcalls, configs, inits=('C',), transient=False, maxitems=1, depth=3, variant='property'):
@@ -1726,7 +1902,8 @@ SAFETY = ['TypeOK', 'Safety', 'NoHoldWhileSuspended']
 GLOBALS_CONSTS = {
     'quick': dict(Names={'N1', 'N2'}, EntKinds={'none', 'internal', 'internal_unused', 'external', 'parameter', 'unparsed',
                                                 'nested', 'doctype'},
-                  Prefixes={'bare', 'ws', 'comment', 'xmldecl'}, Ops={'div', 'round', 'mul', 'sum', 'big', 'format'}),
+                  Prefixes={'bare', 'ws', 'comment', 'xmldecl'},
+                  Ops={'div', 'round', 'mul', 'sum', 'big', 'format', 'format_big', 'format_big_double'}),
     'thorough': dict(Names={'N1', 'N2', 'N3'}, EntKinds=set(ENT_TEXT), Prefixes=set(PREFIX), Ops=set(DEC_OPS)),
 }
 _live_re = re.compile(r'Temporal propert(?:y|ies) .*violated')
@@ -1776,6 +1953,11 @@ def run(chk: core.Check) -> None:
     # ---- stage A: real evaluations that produce the logs (fork pools, no helper threads yet) ----
     t0 = time.time()
     cases = eval_cases(tier, chk.seed)
+    sites, missing_sites = discover_call_sites()
+    if len(sites) < 10:
+        raise tla.MachineryError(f'call-site discovery found only {len(sites)} functions with a collation parameter')
+    n_generic = len(cases)
+    cases += sweep_cases(sites, tier)
     jobs, tr = [], 1
     for ch in core.chunked(cases, 16):
         jobs.append((ch, tr))
@@ -1822,6 +2004,9 @@ def run(chk: core.Check) -> None:
     for inv in ('NoLockLeak', 'NoSelfWait', 'NoStuck'):
         tasks.append(ex.submit(tlc_lock, f'pinned-{inv}', _consts(**pin), [inv], workers=2))
     tasks.append(ex.submit(tlc_lock, 'pinned-live', _consts(**pin), (), ['EveryCallReturns'], 'FairSpec', False, 2))
+    rec_kw = dict(threads=1, colls=['cp', 'L1', 'U2'], kinds={'rec'}, maxcalls=2, configs=ALL_CONFIGS[:3])
+    tasks.append(ex.submit(tlc_lock, 'pinned-rec', _consts(variant='pinned', **rec_kw), ['NoSelfWait'], workers=2))
+    tasks.append(ex.submit(tlc_lock, 'property-rec', _consts(**rec_kw), SAFETY, workers=2))
     for name, kw in REPLAY_CONFIGS[tier]:
         for variant in ('property', 'pinned'):
             tasks.append(ex.submit(tlc_lock, f'graph-{name}-{variant}', _consts(variant=variant, **kw), ['TypeOK'], dump=True))
@@ -1830,7 +2015,7 @@ def run(chk: core.Check) -> None:
         wd = os.path.join(sd, 'globals')
         dot = os.path.join(wd, 'g.dot')
         cfg = tla.cfg_text(GLOBALS_CONSTS[tier], invariants=['TypeOK', 'BlindByDefault', 'NonInterference', 'AllowedIsExact',
-                                                               'NeverExpanded'], properties=['EvalPreserves'])
+                                                               'NeverExpanded', 'CollationBlind'], properties=['EvalPreserves'])
         return 'globals', tla.run_tlc('Globals', cfg, wd, workers=2, dump_dot=dot), dot
     tasks.append(ex.submit(tlc_globals))
     f_mon = ex.submit(monitor_paths, chk)
@@ -1876,6 +2061,13 @@ def run(chk: core.Check) -> None:
                                      f'is wrong\n' + '\n'.join(r.output.splitlines()[-20:]))
         cex[inv] = _act_re.findall(r.output)
         chk.model(f'CollationLock/pinned-{inv} (violated as expected)', r)
+    r = results['pinned-rec'][0]
+    cex['NoSelfWait (re-entrant call site)'] = _act_re.findall(r.output)
+    if r.violated != 'NoSelfWait' or not any(a.startswith('ReenterHolding') for a in cex['NoSelfWait (re-entrant call site)']):
+        raise tla.MachineryError('the pinned variant does not show the self-wait of a re-entrant call site '
+                                 f'(ReenterHolding): {cex["NoSelfWait (re-entrant call site)"]}')
+    chk.model('CollationLock/pinned-rec (NoSelfWait violated through ReenterHolding, as expected)', r)
+    chk.model('CollationLock/property-rec', tla.require_ok(results['property-rec'][0], 'property-rec', min_distinct=20))
     r = results['pinned-live'][0]
     if not _live_re.search(r.output):
         raise tla.MachineryError('the pinned variant satisfies EveryCallReturns: the as-implemented model is wrong')
@@ -1910,6 +2102,8 @@ def run(chk: core.Check) -> None:
             need = set(want_acts) | ({'LeakRaise', 'YieldHolding'} if variant == 'pinned' else set())
             if 'lazy' in kw['kinds']:
                 need |= {'CallArg', 'ResumeLazy'} | ({'LeaveHolding'} if variant == 'pinned' else {'EvalArgs'})
+            if 'rec' in kw['kinds']:
+                need |= {'ReenterHolding'} if variant == 'pinned' else {'Recurse'}
             missing = need - seen - ({'Resume', 'Abandon', 'Yield', 'Return', 'ExitGen'} if 'gen' not in kw['kinds'] else set()) \
                 - (set() if 'cp' in kw['colls'] else {'Enter0'}) \
                 - (set() if 'cp' in kw['colls'] or variant == 'property' else {'ExitGen', 'Yield', 'Return'})
@@ -1995,6 +2189,9 @@ def run(chk: core.Check) -> None:
         if dev == ['unmodelled'] or bad or obs:
             feat = {'part': 'eval', 'deviation': '+'.join(dev) or 'none', 'consequence': '+'.join(bad) or 'none',
                     'observable': '+'.join(sorted(obs)) or 'none', 'outcome': rec['outcome'][0]}
+            if rec['case'].get('sweep'):
+                sw = rec['case']['sweep']
+                feat.update(part='sweep', fn=sw['fn'], shape=sw['shape'], coll=sw['coll'])
             key = json.dumps(feat, sort_keys=True)
             ent = groups.get(key)
             if ent is None:
@@ -2024,6 +2221,21 @@ def run(chk: core.Check) -> None:
     chk.add('traces_validated_against_impl', n_traces)
     chk.add('evaluations', 3 * len(eval_recs) + sum(r['evaluations'] for r in stress_recs))
     chk.add('distinct_nontrivial', lockpath)
+    sw_recs = [r for r in eval_recs if r['case'].get('sweep')]
+    chk.coverage['call_site_sweep'] = {
+        'functions_with_collation_parameter (fn, arity, position; discovered in the live XPath31Parser by probing)':
+            [[x['fn'], x['arity'], x['pos']] for x in sites],
+        'expected_by_F&O_but_not_found': missing_sites,
+        'shapes': {k: v[0] for k, v in SHAPES.items()},
+        'collation_classes': sorted({r['case']['sweep']['coll'] for r in sw_recs}),
+        'evaluations': len(sw_recs),
+        'outcomes': dict(collections.Counter(r['outcome'][0] for r in sw_recs)),
+        'spec_call_labels (collation class, frame kind) exercised': sorted({(r['case']['sweep']['coll'], r['case']['sweep']['kind'])
+                                                                              for r in sw_recs}),
+        'monitor': 'every evaluation: hang detector; afterwards lock free, LC_COLLATE text, decimal context, os.environ, '
+                   'a later compare() and default-collation() answer as before; its event log validated by TraceCollation'}
+    if missing_sites:
+        chk.note(f'functions with a collation parameter in F&O 3.1 that the parser does not offer: {missing_sites}')
     chk.coverage['binding_B'] = {'eval_traces': len(eval_recs), 'eval_events': len(eval_log), 'stress_traces': len(stress_recs),
                                  'stress_events': len(stress_log), 'rejected': len(ev_rej) + len(st_rej),
                                  'eval_traces_on_lock_path': lockpath,
@@ -2126,7 +2338,7 @@ def replay(rec: dict) -> int:
         from elementpath.xpath31 import XPath31Parser
         os.environ.clear()
         for n in case['env']:
-            os.environ[n] = 'value-of-' + n
+            os.environ[n] = env_value(n)
         rt = (ET if case['lib'] == 'etree' else LET).XML('<r><a>x</a></r>')
         try:
             out = ('value', elementpath.Selector(case['expr'], parser={'3.0': XPath30Parser, '3.1': XPath31Parser}[case['parser']])
